@@ -64,6 +64,7 @@ type Config struct {
 	Stubs       map[string]string // function name (or prefix ending in *) -> "zero" | "noop" | "havoc"
 	PanicIsViolation bool     // an uncaught Go panic on a feasible path is a violation
 	Inputs      map[string]uint64 // replay mode: fixed values for named inputs
+	NoMerge     bool
 	Deadline    time.Time
 	Trace       bool
 }
@@ -108,11 +109,14 @@ type Stats struct {
 	PanicPaths    int
 	LimitHit      bool
 	Emits         map[string]uint64
+	Merges        int
+	ModelHits     int
+	MergeAborts   map[string]int
 }
 
 func newStats() *Stats {
 	return &Stats{Unsupported: map[string]int{}, Funcs: map[string]int{}, Obligations: map[string]*Obligation{},
-		Reached: map[string]int{}, Stubbed: map[string]int{}, Emits: map[string]uint64{}}
+		Reached: map[string]int{}, Stubbed: map[string]int{}, Emits: map[string]uint64{}, MergeAborts: map[string]int{}}
 }
 
 func (s *Stats) Merge(o *Stats) {
@@ -141,6 +145,11 @@ func (s *Stats) Merge(o *Stats) {
 	}
 	for k, v := range o.Emits {
 		s.Emits[k] = v
+	}
+	s.Merges += o.Merges
+	s.ModelHits += o.ModelHits
+	for k, v := range o.MergeAborts {
+		s.MergeAborts[k] += v
 	}
 	for k, v := range o.Obligations {
 		e := s.Obligations[k]
@@ -172,6 +181,7 @@ type frame struct {
 	defers    []deferred
 	visits    map[int]int
 	panicking *goPanic
+	region    int
 	recovered bool
 	results   Value
 }
@@ -228,6 +238,10 @@ type Exec struct {
 	ghost    map[string]interface{}
 	goq      []pendingGo
 	inGo     bool
+	guards   []guardLevel
+	mlog     []mlogRec
+	pendingEval *smt.Evaluator
+	eval     *smt.Evaluator // model satisfying the current path condition (nil: unknown)
 
 	// per worker
 	fnInfos   map[*ssa.Function]*fnInfo
@@ -243,6 +257,10 @@ type Exec struct {
 	typeCells map[string]*Cell
 	uniq      map[string]Value
 	intr      map[string]intrinsic
+	pdoms     map[*ssa.Function]*pdomInfo
+	regionOK  map[*ssa.BasicBlock]bool
+	mergeFails map[*ssa.BasicBlock]int
+	mergeOKs  map[*ssa.BasicBlock]int
 }
 
 func NewExec(w *World, cfg *Config) (*Exec, error) {
@@ -265,6 +283,10 @@ func NewExec(w *World, cfg *Config) (*Exec, error) {
 		fnInfos: map[*ssa.Function]*fnInfo{}, globals: map[*ssa.Global]*Cell{}, inited: map[*ssa.Package]bool{},
 		funcVals: map[*ssa.Function]*FuncV{}, typeCells: map[string]*Cell{}, uniq: map[string]Value{}}
 	ex.intr = intrinsicTable()
+	ex.pdoms = map[*ssa.Function]*pdomInfo{}
+	ex.regionOK = map[*ssa.BasicBlock]bool{}
+	ex.mergeFails = map[*ssa.BasicBlock]int{}
+	ex.mergeOKs = map[*ssa.BasicBlock]int{}
 	return ex, nil
 }
 
@@ -290,6 +312,9 @@ func (ex *Exec) RunPath(fn *ssa.Function, trail []uint64) (alts [][]uint64) {
 	ex.ghost = map[string]interface{}{}
 	ex.goq = nil
 	ex.inGo = false
+	ex.guards = nil
+	ex.mlog = nil
+	ex.eval = smt.NewEvaluator(map[*smt.Term]uint64{})
 	ex.solver.Pop(ex.solver.Depth())
 	ex.stats.Paths++
 	q0, t0 := ex.solver.Queries, ex.solver.Time
@@ -388,6 +413,31 @@ func (ex *Exec) assumeTerm(t *smt.Term) {
 	}
 	ex.pc = append(ex.pc, t)
 	ex.solver.Push(t)
+	if ex.eval != nil {
+		if v, ok := ex.eval.Eval(t); !ok || v != 1 {
+			ex.eval = nil
+		}
+	}
+}
+
+// feasibleM is feasible() that also refreshes the cached model when the answer is sat.
+func (ex *Exec) feasibleM(t *smt.Term) smt.Result {
+	terms := make([]*smt.Term, len(ex.inputs))
+	for i, iv := range ex.inputs {
+		terms[i] = iv.T
+	}
+	r, vals, err := ex.solver.CheckModel([]*smt.Term{t}, terms)
+	if err != nil {
+		panic(&pathEnd{kind: "unknown", msg: err.Error()})
+	}
+	if r == smt.Sat {
+		m := make(map[*smt.Term]uint64, len(terms))
+		for i, tm := range terms {
+			m[tm] = vals[i]
+		}
+		ex.pendingEval = smt.NewEvaluator(m)
+	}
+	return r
 }
 
 func (ex *Exec) checkTime() {
@@ -446,17 +496,46 @@ func (ex *Exec) Branch(c *smt.Term) bool {
 		ex.assumeTerm(ex.ctx.Not(c))
 		return false
 	}
-	rt := ex.feasible(c)
-	var rf smt.Result
-	if rt == smt.Unsat {
-		rf = smt.Sat // pc is satisfiable by construction
-	} else {
-		rf = ex.feasible(ex.ctx.Not(c))
+	var rt, rf smt.Result
+	known := false
+	if ex.eval != nil && !ex.guarded() {
+		if v, ok := ex.eval.Eval(c); ok {
+			known = true
+			ex.stats.ModelHits++
+			if v == 1 {
+				rt = smt.Sat
+				rf = ex.feasible(ex.ctx.Not(c))
+			} else {
+				rf = smt.Sat
+				rt = ex.feasibleM(c)
+				if rt == smt.Sat {
+					ex.eval = ex.pendingEval
+				}
+			}
+		}
+	}
+	if !known {
+		if ex.guarded() {
+			rt = ex.feasible(c)
+		} else {
+			rt = ex.feasibleM(c)
+			if rt == smt.Sat {
+				ex.eval = ex.pendingEval
+			}
+		}
+		if rt == smt.Unsat {
+			rf = smt.Sat // pc is satisfiable by construction
+		} else {
+			rf = ex.feasible(ex.ctx.Not(c))
+		}
 	}
 	if rt == smt.Unknown || rf == smt.Unknown {
 		ex.stats.SolverUnknown++
 		// keep both (sound for violation finding; path counted as unknown if it matters)
 		rt, rf = smt.Sat, smt.Sat
+	}
+	if rt == smt.Sat && rf == smt.Sat {
+		ex.noGuard("two-sided branch inside merge region")
 	}
 	ex.pos++
 	switch {
@@ -494,6 +573,7 @@ func (ex *Exec) Concretize(t *smt.Term, max int) uint64 {
 		return v
 	}
 	ex.checkTime()
+	ex.noGuard("concretisation inside merge region")
 	var vals []uint64
 	var excl []*smt.Term
 	for {
@@ -548,6 +628,7 @@ func (ex *Exec) Choose(n int) int {
 		ex.decided = append(ex.decided, v)
 		return int(v)
 	}
+	ex.noGuard("nondeterministic choice inside merge region")
 	ex.pos++
 	for i := 1; i < n; i++ {
 		alt := append(append([]uint64(nil), ex.decided...), uint64(i))
@@ -572,6 +653,9 @@ func (ex *Exec) obligation(name, site string) *Obligation {
 func (ex *Exec) Assert(name string, cond *smt.Term) {
 	site := ex.where()
 	o := ex.obligation(name, site)
+	if len(ex.guards) > 0 {
+		cond = ex.ctx.Implies(ex.totalGuard(), cond)
+	}
 	if cond.IsTrue() {
 		o.Trivial++
 		o.Discharged++
@@ -625,6 +709,7 @@ func (ex *Exec) input(name string, w int) *smt.Term {
 		}
 		return t
 	}
+	ex.noGuard("new input")
 	var t *smt.Term
 	if ex.cfg.Inputs != nil {
 		v := ex.cfg.Inputs[name]
